@@ -230,6 +230,11 @@ def run(ctx):
     sample = [l for name, ls in streams.items() for l in ls[:6]]
     rnd.shuffle(sample)
     sample = sample[: (60 if quick else 1500)]
+    # always in the sample: signature hashing with hash types outside the defined ones (log lines are formatted whether or not they are shown)
+    for kind in ("p2pk", "p2pkh", "multisig", "p2sh", "p2wpkh", "p2wsh"):
+        for ht in (0, 4, 0x1c, 0x80):
+            sv_ = S.build(rnd, kind, {"hashtype": ht})
+            sample.append(S.spend_line(sv_.tx, sv_.txin, R.STD & ~(1 << R.FLAG_BITS["STRICTENC"])))
     p = subprocess.run(["valgrind", "-q", "--error-exitcode=97", "--track-origins=no", os.path.join(ctx.bin, "harness")],
                        input="\n".join(sample) + "\n", stdout=subprocess.PIPE, stderr=subprocess.PIPE, text=True, errors="replace")
     if p.returncode == 97 or "uninitialised" in p.stderr or "Invalid read" in p.stderr or "Invalid write" in p.stderr or "Mismatched" in p.stderr:
